@@ -521,6 +521,16 @@ fn main() {
                 lines.push("len 0".into());
                 lines.push(format!("intern 0 {}", harness::hex(b"one-more")));
                 lines.push(format!("intern 0 {}", harness::hex(b"m123")));
+                // ... and more refused calls (the concurrent interner's counter keeps counting): no key may be
+                // handed out again, the first strings keep their keys
+                for extra in ["one-more-2", "one-more-3", "one-more-4"] {
+                    lines.push(format!("intern 0 {}", harness::hex(extra.as_bytes())));
+                    lines.push("tryResolve 0 0".into());
+                    lines.push("tryResolve 0 1".into());
+                    lines.push(format!("get 0 {}", harness::hex(b"m0")));
+                    lines.push(format!("get 0 {}", harness::hex(extra.as_bytes())));
+                }
+                lines.push("len 0".into());
                 lines.push(format!("get 0 {}", harness::hex(b"m65534")));
                 lines.push("tryResolve 0 65534".into());
                 lines.push("tryResolve 0 65535".into());
